@@ -102,9 +102,15 @@ def bulks():
 
 NSIZE = 13
 SIZE_PREDS = ([pred("allow", range(1, k + 1)) for k in range(0, NSIZE + 1)]
-              + [pred("deny", range(k + 1, NSIZE + 1)) for k in (0, 3, 9, 10, 12)] + [pred("nil"), pred("none")])
+              + [pred("deny", range(k + 1, NSIZE + 1)) for k in range(0, NSIZE + 1)] + [pred("nil"), pred("none")])
 SIZES = dict(name="sizes", NKEYS=NSIZE, VALS=tset([I1, SA]), PREDS=tset(SIZE_PREDS), OPS='{"Bulk","New","NewF","Filter"}',
              MAXLIST=0, MINLIST=0, MAXOPS=2, BULKS=None)
+
+# constructor routes: every value class (incl. empty slices of all four kinds) written through every pair of routes
+ROUTES = dict(name="routes", NKEYS=1,
+              VALS=tset([BT, I1, val("i64", "-9223372036854775808"), FNAN, FP0, FN0, SA, SE, BSE, ISE, FSE, val("strs"), SSE,
+                         val("bools", "T", "F"), IS1, val("i64s", "1", "-1"), FS1, FSNAN, SS1]),
+              PREDS=tset([pred("none")]), OPS='{"Twin"}', MAXLIST=0, MINLIST=0, MAXOPS=1)
 
 # ---- iterator histories (AttrIter.tla)
 A1, A2, A3, A4 = attr(1, I1), attr(2, SA), attr(3, FSNAN), attr(4, BT)
@@ -144,7 +150,11 @@ SIM = dict(name="sim-boundary", NKEYS=12, VALS=tset([I1, SA]), PREDS=tset([pred(
 def defines(c):
     d = {k: c[k] for k in ("NKEYS", "VALS", "PREDS", "OPS", "MAXLIST", "MINLIST", "MAXOPS")}
     d["BULKS"] = c.get("BULKS") or "{}"
+    d["NROUTES"] = NROUTES["tla"]
     return d
+
+
+NROUTES = {"tla": "[bool |-> 1]"}
 
 
 def merge_counters(ctx, name, counters):
@@ -291,7 +301,11 @@ def run(ctx):
     edges = 0
     zero = None
     SIZES["BULKS"] = bulks()
-    for c in configs(ctx.tier) + [SIZES]:
+    # the number of constructor routes per type is the harness' table (one source)
+    nr = json.loads(ctx.run([binp, "routes"]).stdout)
+    NROUTES["tla"] = "[%s]" % ", ".join("%s |-> %d" % (t, n) for t, n in sorted(nr.items()))
+    ctx.extra["constructor_routes"] = nr
+    for c in configs(ctx.tier) + [SIZES, ROUTES]:
         r = ctx.tlc(S, "MC_AttrSet", "MC_AttrSet.cfg", defines=defines(c), want_edges=True, name=c["name"],
                     timeout=2400, coverage=True)
         zero = set(r["zero_cov"]) if zero is None else zero & set(r["zero_cov"])
@@ -301,8 +315,16 @@ def run(ctx):
     rc = ctx.extra.get("replay_counters", {})
     missing = ["size_%s_%d" % (route, n) for route in ("New", "NewF", "NewFDrop", "Filter", "FilterDrop") for n in range(0, 13)
                if not rc.get("size_%s_%d" % (route, n))]
+    # filters of 0..12 keys (both sides of any small-set threshold), allow and deny, through NewSetWithFiltered and Set.Filter
+    missing += ["fkeys_%s_%s_%d" % (op, kind, n) for op in ("NewF", "Filter") for kind in ("allow", "deny") for n in range(0, 13)
+                if not rc.get("fkeys_%s_%s_%d" % (op, kind, n))]
+    # every pair of constructor routes of every type
+    missing += ["twin_%s_%d_%d" % (t, a, b) for t, n in nr.items() for a in range(1, n + 1) for b in range(a + 1, n + 1)
+                if not rc.get("twin_%s_%d_%d" % (t, a, b))]
     if missing:
-        ctx.note_inconclusive("edge replay never produced: %s" % missing)
+        ctx.note_inconclusive("edge replay never produced: %s" % missing[:40])
+    for k in [k for k in rc if k.startswith("twin_") or k.startswith("fkeys_")]:
+        ctx.extra.setdefault("replay_route_filter_counters", {})[k] = rc.pop(k)
     ctx.extra["replay_sizes_hit"] = {route: [rc.get("size_%s_%d" % (route, n), 0) for n in range(0, 14)]
                                      for route in ("New", "NewF", "NewFDrop", "Filter", "FilterDrop")}
     # ---- spec -> code, iterator histories
@@ -344,14 +366,15 @@ def run(ctx):
     ctx.evaluations += accepted
     ctx.extra["random_programs"] = n
     ctx.extra["trace_lines_validated"] = accepted
-    ctx.extra["random_counters"] = {k: v for k, v in res["counters"].items() if "size_" not in k}
+    ctx.extra["random_counters"] = {k: v for k, v in res["counters"].items() if "size_" not in k and "fkeys_" not in k}
     trace_violations(ctx, viols, trace, "random")
     # vacuity of the random driver: the interesting regimes must have been reached
     need = ["sets_len_9_10_fixed", "sets_len_11_12_reflect", "sets_len_13_up", "builds_with_superseded",
             "builds_with_dropped", "filters_with_dropped", "cmp_equal", "cmp_unequal", "record_hits", "long_lists",
             "iter_open_set", "iter_open_merge", "iter_Next", "iter_next_false", "iter_Attribute", "iter_IndexedAttribute",
             "iter_Label", "iter_IndexedLabel", "iter_Len", "iter_ToSlice", "iter_toslice_midway", "sweeps",
-            "marshal_json_decoded"]
+            "marshal_json_decoded", "twins", "twin_cmp_equal"]
+    need += ["fkeys_%s_%s_%d" % (op, kind, k) for op in ("NewF", "Filter") for kind in ("allow", "deny") for k in range(0, 13)]
     need += ["size_%s_%d" % (route, k) for route in ("New", "NewF", "NewFDrop", "Filter", "FilterDrop") for k in range(0, 13)]
     missing = [k for k in need if not res["counters"].get(k)]
     if missing:
